@@ -290,10 +290,44 @@ ORDERED = {
         "Ok(TypedSignature{sig:self.secp_ctx.sign_ecdsa(&htlc_sighash,&htlc_privkey),typ:sighash_type,})",
     ],
 }
+# the same for vls-core/src/policy/simple_validator.rs (the decoder behind the raw second-stage entry point, `Bolt3.htlcRaw`)
+ORDERED_SV = {
+    "decode_and_validate_htlc_tx": [
+        "letto_self_delay=ifis_counterparty{setup.holder_selected_contest_delay}else{setup.counterparty_selected_contest_delay};",
+        "letsighash_type=ifsetup.is_anchors(){EcdsaSighashType::SinglePlusAnyoneCanPay}else{EcdsaSighashType::All};",
+        "letoriginal_tx_sighash=SighashCache::new(tx).p2wsh_signature_hash(0,&redeemscript,Amount::from_sat(htlc_amount_sat),sighash_type)",
+        "letoffered=ifparse_offered_htlc_script(redeemscript,setup.is_anchors()).is_ok(){true}elseifparse_received_htlc_script(redeemscript,setup.is_anchors()).is_ok(){false}else{",
+        "returnErr(policy_error(\"policy-commitment-scripts\",\"invalid redeemscript\"));};",
+        "letcltv_expiry=ifoffered{tx.lock_time.to_consensus_u32()}else{0};",
+        "lettransaction_output_index=tx.input[0].previous_output.vout;letcommitment_txid=tx.input[0].previous_output.txid;",
+        "lettotal_fee=htlc_amount_sat.checked_sub(tx.output[0].value.to_sat()).ok_or_else(||policy_error(\"policy-commitment-fee-range\",\"fee underflow\"))?;",
+        "letbuild_feerate=ifsetup.is_zero_fee_htlc(){0}else{letweight=ifoffered{htlc_timeout_tx_weight(&features)}else{htlc_success_tx_weight(&features)};estimate_feerate_per_kw(total_fee,weight)};",
+        "lethtlc=HTLCOutputInCommitment{offered,amount_msat:htlc_amount_sat*1000,cltv_expiry,payment_hash:PaymentHash([0;32]),transaction_output_index:Some(transaction_output_index),};",
+        "letrecomposed_tx=build_htlc_transaction(&commitment_txid,build_feerate,to_self_delay,&htlc,&setup.features(),&txkeys.broadcaster_delayed_payment_key,&txkeys.revocation_key,);",
+        "letrecomposed_tx_sighash=SighashCache::new(&recomposed_tx).p2wsh_signature_hash(0,&redeemscript,Amount::from_sat(htlc_amount_sat),sighash_type).unwrap();",
+        "ifrecomposed_tx_sighash!=original_tx_sighash{",
+        "returnErr(policy_error(\"policy-htlc-other\",\"sighash mismatch\".to_string()));}",
+        "Ok((build_feerate,htlc,recomposed_tx_sighash,sighash_type))",
+    ],
+}
 ORD_FIELDS = {"value_sat": 0, "payment_hash": 1, "cltv_expiry": 2}
 
 
-def skeletons(ch, tx):
+def _ordered(src, table, where):
+    for fn, frags in table.items():
+        b = _nows(body_after(src, r"fn\s+" + fn + r"\s*\("))
+        pos = 0
+        for f in frags:
+            if b.count(f) != 1:
+                raise ExtractError(f"{fn} ({where}): expected exactly one `{f[:70]}`, found {b.count(f)}")
+            i = b.find(f)
+            if i < pos:
+                raise ExtractError(f"{fn} ({where}): `{f[:70]}` is out of order")
+            pos = i + len(f)
+
+
+def skeletons(ch, tx, sv):
+    _ordered(sv, ORDERED_SV, "simple_validator.rs")
     for fn, want in EXACT.items():
         got = _nows(body_after(ch, r"fn\s+" + fn + r"\s*\("))
         if got != want:
@@ -330,6 +364,30 @@ def skeletons(ch, tx):
     if pb != "Some(self.cmp(other))":
         raise ExtractError("impl PartialOrd for HTLCInfo2 is not Some(self.cmp(other))")
     return order
+
+
+def persistence(repo):
+    """the conversion between a channel and its persisted entry (`Bolt3.persistChannel / restoreChannel`)"""
+    kv = _nows(strip_comments(read(repo, "vls-persist/src/kvv.rs")))
+    pm = _nows(strip_comments(read(repo, "vls-persist/src/model.rs")))
+    nd = _nows(strip_comments(read(repo, "vls-core/src/node.rs")))
+    cm = _nows(strip_comments(read(repo, "vls-core/src/persist/model.rs")))
+    need = [
+        (kv, "vls-persist/src/kvv.rs update_channel",
+         "letchannel_value_satoshis=channel.setup.channel_value_sat;letentry=ChannelEntry{channel_value_satoshis,channel_setup:Some(channel.setup.clone()),"
+         "id:channel.id.clone(),enforcement_state:channel.enforcement_state.clone(),blockheight:None,};letvalue=F::ser_value(&entry)?;self.put(&key,value)"),
+        (pm, "vls-persist/src/model.rs From<ChannelEntry>",
+         "CoreChannelEntry{channel_value_satoshis:e.channel_value_satoshis,channel_setup:e.channel_setup,id:e.id,enforcement_state:e.enforcement_state,blockheight:e.blockheight,}"),
+        (cm, "vls-core/src/persist/model.rs ChannelEntry", "pubchannel_value_satoshis:u64,"),
+        (cm, "vls-core/src/persist/model.rs ChannelEntry", "pubchannel_setup:Option<ChannelSetup>,"),
+        (nd, "node.rs restore: keys from the stored channel value",
+         "letmutkeys=node.keys_manager.get_channel_keys_with_id(channel_id0.clone(),channel_entry.channel_value_satoshis,);"),
+        (nd, "node.rs restore: setup from the entry", "letsetup_opt=channel_entry.channel_setup;matchsetup_opt{"),
+    ]
+    for src, where, frag in need:
+        if src.count(frag) != 1:
+            raise ExtractError(f"{where}: expected exactly one `{frag[:80]}`, found {src.count(frag)}")
+    return True
 
 
 def extract(repo):
@@ -422,13 +480,16 @@ def extract(repo):
               "def guardsAsModelled : Bool := true", ""]
         facts.update({"MAX_DELAY": md, "ANCHOR_SAT": anchor, "MIN_DUST_LIMIT_SATOSHIS": dust, "MIN_CHAN_DUST_LIMIT_SATOSHIS": cdust,
                       "payment_hash_hash_len": hlen})
-    order2 = guarded("decision skeletons of channel.rs", lambda: skeletons(ch, tx))
+    order2 = guarded("decision skeletons of channel.rs", lambda: skeletons(ch, tx, sv))
     if order2 is not None:
         L += ["/-- `sign_counterparty_commitment_tx`, `…_phase2`, `sign_htlc_tx` contain the calls `Bolt3.phase1 / phase2 / htlcRaw` model, once",
               "    each and in this order (length test, validate_channel_value, decode, CommitmentInfo2 from decoded balances + request HTLCs,",
               "    claimable_balances, validate_counterparty_commitment_tx, recompose from info2, `recomposed != *tx => policy-commitment`,",
               "    sign the recomposed tx with `setup.channel_value_sat`, validate_payments, set_next_counterparty_commit_num; phase 2:",
-              "    recompose from the arguments, LDK signs commitment + HTLCs; HTLC tx: key derived from the point of the request); the",
+              "    recompose from the arguments, LDK signs commitment + HTLCs; HTLC tx: key derived from the point of the request;",
+              "    `decode_and_validate_htlc_tx` of simple_validator.rs: sighash of the supplied tx, side from the redeem script, cltv / outpoint /",
+              "    fee read off the tx, feerate estimate, recomposition, unconditional `policy-htlc-other` on a sighash mismatch, the *recomposed*",
+              "    sighash returned); the",
               "    conversions `make_counterparty_commitment_tx(_with_keys)`, `make_channel_parameters` (which delay goes where, `vout as u16`),",
               "    `htlcs_info2_to_oic`, `build_counterparty_commitment_info`, `CommitmentInfo2::new`, `features()`, `sign_counterparty_htlc_tx`",
               "    have exactly the bodies the model was written against (compared textually, fail closed) -/",
@@ -436,6 +497,11 @@ def extract(repo):
               "/-- `impl Ord for HTLCInfo2`: the fields compared, in order (0 value_sat, 1 payment_hash, 2 cltv_expiry) -/",
               "def htlcInfo2Order : List Nat := [" + ", ".join(str(i) for i in order2) + "]", ""]
         facts["HTLCInfo2_ord"] = order2
+    if guarded("persist / restore of a channel", lambda: persistence(repo)):
+        L += ["/-- `KVVPersister::update_channel` stores `channel_value_satoshis = setup.channel_value_sat` next to the whole `ChannelSetup`,",
+              "    `From<ChannelEntry>` copies both, `Node::new_from_persistence` derives the channel keys with the stored",
+              "    `channel_value_satoshis` and takes the setup from the entry: `Bolt3.persistChannel / restoreChannel` (compared textually) -/",
+              "def persistRestoreAsModelled : Bool := true", ""]
     L.append("end VlsModel.Gen.Bolt3")
     obl = ["Gen.Bolt3: every canonical witness script of the model is parsed by the template the code tries first and by no earlier one "
            "(theorems C04_gen_parse_*, C04_gen_classify), model constants equal the source's (C04_gen_consts)"]
